@@ -287,6 +287,20 @@ pub fn run(ctx: &mut Ctx) {
         b"a".to_vec(),
         b"line one\nline two\r\nline three\rend\n".to_vec(),
         b"trailing cr\r".to_vec(),
+        // texts that end exactly on the 512 / 1024 octet window of the canonicalising reader
+        {
+            let mut d = vec![b'q'; 512];
+            d[511] = b'\r';
+            d[100] = b'\n';
+            d
+        },
+        {
+            let mut d = vec![b'w'; 1024];
+            d[1023] = b'\r';
+            d[511] = b'\r';
+            d[512] = b'\n';
+            d
+        },
         (0..70000u32).map(|i| if i % 97 == 0 { b'\n' } else { (i % 251) as u8 }).collect(),
     ];
     let uid_lens: &[usize] = if quick { &[0, 1, 40, 300, 70000] } else { &[0, 1, 2, 40, 191, 192, 255, 256, 300, 65535, 65536, 70000] };
@@ -491,7 +505,7 @@ pub fn run(ctx: &mut Ctx) {
 
         // ================= verify side: reference-made signatures
         let version: u8 = if k.v6 { 6 } else { 4 };
-        let nver = if slow { 6 } else { ctx.qt(36, 240) };
+        let nver = if slow { 14 } else { ctx.qt(105, 420) };
         for vi in 0..nver {
             if !ctx.mine() {
                 continue;
@@ -508,7 +522,7 @@ pub fn run(ctx: &mut Ctx) {
 
             // which object
             let obj = vi % 7;
-            let doc = &docs[vi % docs.len()];
+            let doc = &docs[(vi / 7) % docs.len()];
             let canon = rfc::canon_text(doc);
             let uid_s: String = (0..uid_lens[vi % uid_lens.len()]).map(|i| (b'A' + (i % 26) as u8) as char).collect();
             let uid = UserId::from_str(Default::default(), &uid_s).unwrap();
